@@ -70,7 +70,7 @@ def nontrivial(req, obs):
     if f[0] == "pub":
         return f[1] != "-" and "p" in f[5]          # at least one decorator and one Publish call
     if f[0] == "sub":
-        return f[1] != "-" and f[6] != "0" and f[2] == "0"   # at least one decorator and one message received
+        return f[1] != "-" and (f[6] != "0" or "1" in f[2])   # a decorator and a received message or a refused Subscribe
     if f[0] == "rt":
         return f[5] != "-"
     if f[0] == "ch":
@@ -99,6 +99,8 @@ PROP = {
         "Wm.Decor.settle_outer_settles_inner",
         "Wm.Decor.transform_sub_transparent",
         "Wm.Decor.sub_error_close_pass",
+        "Wm.Decor.subscribe_refusal_passes_and_close_returns",
+        "Wm.Decor.early_registration_blocks_close_witness",
         "Wm.Decor.close_sub_each_call_passes",
         "Wm.Decor.transform_transparent",
         "Wm.Decor.publish_marked_no_obs",
@@ -143,7 +145,10 @@ PROP = {
             "(valid, malformed, empty), context For/Until with past, zero, 1 ns, fractional, days and ~250 years, 1..4 Publish calls with "
             "inner failure scripts, Close (with error); 10% of the random cases re-publish the same message objects and 10% publish an empty "
             "batch (finding D15, reported as KNOWN-FINDING). sub: every subscriber stack of depth 0..3 over {transform a, transform b, "
-            "metrics} x 8 programs (ack/nack/late ack, Close error, no message, Subscribe error, ack and nack AFTER the subscription context was "
+            "metrics} x 11 programs (ack/nack/late ack, Close error, no message, Subscribe refused, Subscribe refused once or twice and then accepted "
+            "on a retry with messages and acks flowing, a further Subscribe refused after the messages flowed – each followed by Close; every "
+            "Subscribe / Close call runs under a watchdog: a call that does not return within 5 s is observed as `stuck` "
+            "(rules subscribe_did_not_return, close_did_not_return), ack and nack AFTER the subscription context was "
             "cancelled next to ones settled while subscribed, the wrapped Close failing and the caller retrying: 2-3 Close calls with scripted "
             "inner errors) + random cases incl. Close with unread messages, 1-3 Close calls, settle-after-cancel; the scripted subscriber gives "
             "every message a context derived from the subscription context and cancels it on Close, like the real subscribers. rt: a real message.Router with one handler, publisher/subscriber decorated 0..3 times with the metrics decorators, "
